@@ -123,6 +123,17 @@ Theorem access_found_wins : forall eif im ii key m d w,
 Proof. exact ObjProofs.access_found_wins. Qed.
 Print Assumptions access_found_wins.
 
+(* 4b. an @access override receives every `.` access -- core-library method names included -- before
+   the iterator-module fallback, @next and @iterator are considered *)
+Theorem access_override_precedes_iterator_fallback :
+  forall (o : oracle) (ks : keyset) (u : uop) (r : kind),
+    u = UToTuple \/ u = UReversed ->
+    has k_access ks = true ->
+    fst (dispatch o (OpUnary u) (VMap ks) r) = [Ev L k_access WL [WKey]]
+    /\ forall k, dispatch o (OpUnary u) (VMap ks) r <> ([Ev L k WL []], OIter 2 (Some (L, k))).
+Proof. exact ObjProofs.access_override_precedes_iterator_fallback. Qed.
+Print Assumptions access_override_precedes_iterator_fallback.
+
 (* 5. a metamap shared through map.with_meta behaves like an own copy, and sees later insertions *)
 Theorem shared_meta_equiv :
   forall (h : heap) (d m : kmap),
